@@ -512,6 +512,39 @@ def fam_pending(tier, rng):
 FAMILIES = [fam_goto, fam_gosub, fam_trap, fam_pending]
 
 
+def fam_trap_first(tier, rng):
+    """statements that fail on their very first machine instruction (RETURN without GOSUB, READ past the last DATA item,
+    RESUME without an error, an undimensioned place) under a handler that answers RESUME twice and RESUME NEXT the third time:
+    RESUME re-executes exactly the failing statement, whatever stands before it (another statement, a label, a block end)"""
+    out = []
+    for kind in ("return", "read", "resume", "resumenext"):
+        for before in ("print", "let", "label", "blockend", "call", "first"):
+            for host in ("main", "select", "for", "if"):
+                b = B()
+                n = var("N", "I")
+                if kind == "return":
+                    f = b.ret()
+                elif kind == "read":
+                    f = b.read(var("Z", "I"))
+                else:
+                    f = b.resume("bare" if kind == "resume" else "next")
+                pre = {"print": [tok(b, "before")], "let": [b.let(var("W", "I"), bin_("+", var("W", "I"), lit("I", 1)))], "label": [b.label("L1")],
+                       "blockend": [b.if_([(bin_("=", n, lit("I", 0)), [tok(b, "blk")])])], "call": [b.call("PP", [])], "first": []}[before]
+                core = pre + [f, tok(b, "after", n, var("W", "I"))]
+                if host != "main":
+                    if before == "label":
+                        continue
+                    core = wrap(b, {"select": "select", "for": "for+", "if": "if"}[host], core, 1)
+                main = [b.onerror("goto", "H")] + ([tok(b, "start")] if before != "first" or host != "main" else []) + core + [tok(b, "fin", n), b.end(),
+                        b.label("H"), b.let(n, bin_("+", n, lit("I", 1))), tok(b, "h", n, {"k": "err"}),
+                        b.if_([(bin_("<", n, lit("I", 3)), [b.resume("bare")])]), b.resume("next")]
+                out.append({"fam": "trap-first:%s/%s/%s" % (kind, before, host), "prog": prog(main, [sub("PP", [], [tok(b, "pp")])])})
+    return out
+
+
+FAMILIES.append(fam_trap_first)
+
+
 def cases(tier, seed):
     rng = random.Random(seed)
     out = []
